@@ -69,4 +69,12 @@ def pg (γ : Coef) (n : Nat) : Spec :=
     init := [(EDict.subConst (PDict.sq (PDict.sub (pgX γ 0) [(0, 1)])) 1, false)],
     metrics := [PDict.sq (PDict.sub (pgX γ n) [(0, 1)])] }
 
+/-- `continuous_time_models.gradient_flow_strongly_convex`: `x⋆ ↦ 0` (stationary point, value leaf 0), `x_t ↦ 1`, the oracle call
+creates `∇f(x_t) ↦ 2` and `f(x_t)` (value leaf 1); the Lyapunov function `f(x_t) − f⋆` is normalised to 1 (an equality) and the
+metric is its derivative along the flow `ẋ = −∇f(x)`: `⟨∇f(x_t), −∇f(x_t)⟩` -/
+def gfsc : Spec :=
+  { samples := [([(0, 1)], [], [(EKey.f 0, 1)]), ([(1, 1)], [(2, 1)], [(EKey.f 1, 1)])],
+    init := [(EDict.subConst (EDict.sub [(EKey.f 1, 1)] [(EKey.f 0, 1)]) 1, true)],
+    metrics := [PDict.ip [(2, 1)] (PDict.neg [(2, 1)])] }
+
 end Pepit.Method
